@@ -33,6 +33,10 @@ for cls in ["close","close+unsubscribe"]:
     known("C07","connops-C07","leave-before-join:client-side:"+cls,"client subscribe racing a connection close (Client.Disconnect / Node.Disconnect / transport close): close() sees the committed subscription and publishes leave before subscribeCmd has published the join")
     known("C07","connops-C07","missing-leave:client-side:"+cls,"client subscribe racing a connection close: observers end with [leave, join]")
 
+for h in ["deltax","deltamap"]:
+    for sig in ["delta-without-base:live:tags-filter","delta-wrong-base:live:tags-filter"]:
+        known("C14",h,sig,"fossil delta + tags filter ("+("stream" if h=="deltax" else "map")+" subscription): recovery / state pages omit publications the filter withholds, but the live path computes the next delta against the broker's previous publication, e.g. history [p1 tag a, p2 tag b], filter t==a, client recovers [p1], then p3 arrives as patch(p2->p3): the delta does not apply to (or there is no) base the client holds")
+
 # ---- fixed (suppress nothing; the checks pass on the repaired tree)
 for sig,what in [("panic-extractPushData:p-header-lt3","extractPushData(\"__p__\") / \"__p__x\": header shorter than 3 bytes sliced out of range"),
   ("panic-extractPushData:d-nothing-after-prev","extractPushData(\"__d1:0::-0:\"): nothing after the previous payload, input[prevLen+1:] out of range"),
@@ -57,5 +61,15 @@ fixed("C29","wsread","violation-no-1002:rsv1-continuation","27942522","RSV1 on a
 fixed("C03","cachex","cache-recovered=false-want-true:newest-in-history-but-none-admitted-by-filters","0c2b971b","cache recovery with the newest publication in history but hidden by the subscription's filters reported recovered=false")
 fixed("C28","unsuball","c28-still-subscribed","ad15212e","Node.Unsubscribe(user, \"\") left every subscription in place and pushed an unsubscribe with an empty channel name")
 fixed("C32","streamframing","c32-sse-record-differs:CR","fdb92c95","SSE: payload '{} \\r' (raw CR as JSON whitespace) was framed unescaped and truncated the event for an EventSource parser")
+fixed("C14","deltax","delta-without-base:live:session=recovered-empty","5aab397e","delta subscription recovered with zero publications (fresh subscribe to an idle channel, then resubscribe with recovery from the same position): the next live publication arrived as a delta although the client holds no base")
+fixed("C13","chanwriter","order:add-concurrent-with-delwriter","7c5eb836","perChannelWriter.Add racing delWriter: the item was buffered on the detached writer and flushed after later items / after the subscription ended")
+fixed("C13","chanwriter","latest-stale:add-concurrent-with-delwriter","7c5eb836","same window in FlushLatestPublication mode: the detached writer flushed a superseded publication")
+fixed("C42","itembufx","itembuf-dirty:behind-put-len","cbf9f7ef","getItemBuf(4); fill; B=B[:2]; putItemBuf; getItemBuf(4) exposed the stale items 2,3")
+for k in ["generic","sse","http_stream"]:
+    fixed("C08","shutdownx","connect-callback-after-shutdown:"+k,"ada6cf79","a connection attempt through the "+k+" entry point after Node.Shutdown returned ran the connect callback")
+fixed("C08","shutdownx","connection-survives-shutdown:generic","ada6cf79","NewClient + connect command after Shutdown returned stayed connected and registered in the hub")
+fixed("C08","shutdownx","connected-after-shutdown:sse","ada6cf79","SSE connection made after Shutdown became connected")
+fixed("C08","shutdownx","connected-after-shutdown:http_stream","ada6cf79","HTTP-stream connection made after Shutdown became connected")
+fixed("C08","shutdownx","connection-survives-shutdown:race","ada6cf79","a connect command racing Node.Shutdown registered in the hub after the shutdown pass took its snapshot and stayed connected")
 json.dump(F,open('/verif/known_findings.json','w'),indent=1)
 print(len([f for f in F if f['status']=='known']),'known',len([f for f in F if f['status']=='fixed']),'fixed')
